@@ -1,5 +1,5 @@
 """Table from which tools/gen_manifest.py writes MANIFEST.json."""
-FIX_COMMITS = ["77a8511 (C20)"]
+FIX_COMMITS = ["77a8511 (C20)", "5ffb491 (C06)", "c8070ac (C06)"]
 
 CHECKS = {
     "C20": {
@@ -11,7 +11,19 @@ CHECKS = {
         "note": "Oracle is one installed version set (numpy 2.5.3, scipy 1.18.1, h5py 3.16, Python 3.12), not the whole declared range; "
                 "attributes of runtime objects (array methods) and dynamic getattr are out of reach; trusted: CPython ast, importlib.",
     },
+    "C06": {
+        "technique": "static analysis: read-set closure over the MRO + path-state (typestate) analysis of in-place mutations + mechanism pattern rules",
+        "text": "For all 15 LazyMutableClass subclasses: every attribute a lazy value transitively reads must be in the static-attribute "
+                "list reaching LazyMutableClass.__init__ (R06a, knobs R06a'); every in-place mutation of such an attribute must be "
+                "covered by _clear_cache()/static re-assignment on every path to every exit incl. explicit raises (R06b, path-state "
+                "flow); the cache mechanism (prefix agreement, positive membership, unconditional store) is intact (R06c); "
+                "FunctionSignal.values has the eager-definition shape (R06d). Necessary conditions stated per method, hence valid "
+                "for every interleaving of reads and mutations.",
+        "note": "Not decided: mutation of objects held by an attribute from outside, numerical equality of cached and fresh values. "
+                "9 class-level knobs are recorded as known findings (demonstrated by known_demos/c06_knobs.py). Trusted: Python "
+                "attribute protocol (obj.x = v / obj.x += v call __setattr__).",
+    },
 }
 
 _TODO = "check not built yet in this session (see DESIGN.md section 3 for the planned rules)"
-NOT_APPLICABLE = {f"C{i:02d}": _TODO for i in range(1, 20)}
+NOT_APPLICABLE = {f"C{i:02d}": _TODO for i in range(1, 21) if f"C{i:02d}" not in CHECKS}
